@@ -95,7 +95,8 @@ func VerifH_serveGRPC() {
 	hv := vfPlainString(2)
 	tv := vfPlainString(2)
 	srv.setHdr = metadata.MD{"x-h": []string{hv}}
-	srv.setTrail = metadata.MD{"x-t": []string{tv}, "grpc-status": []string{"0"}, "grpc-message": []string{"forged"}}
+	rawBin := []byte{0xfb, 0xef, 0xbe} // base64 "++++": distinguishes the standard from the URL alphabet; symbolic bytes are covered by VerifH_binhdr
+	srv.setTrail = metadata.MD{"x-t": []string{tv}, "x-b-bin": []string{string(rawBin)}, "grpc-status": []string{"0"}, "grpc-message": []string{"forged"}}
 	payload := vfBytes(vfLen(2))
 	r := vfGRPCRequest("application/grpc+fake", payload, nil)
 	w := newFakeRW()
@@ -122,6 +123,8 @@ func VerifH_serveGRPC() {
 	vfCheck(len(xh) == 1 && xh[0] == hv, "header metadata set by the handler did not reach the client")
 	xt, ok := w.trailer("X-T")
 	vfCheck(ok && len(xt) == 1 && xt[0] == tv, "trailer metadata set by the handler did not reach the client")
+	xb, ok := w.trailer("X-B-Bin")
+	vfCheck(ok && len(xb) == 1 && (xb[0] == refBase64Encode(rawBin, false) || xb[0] == refBase64Encode(rawBin, true)), "binary trailer metadata is not the base64 of the handler's bytes")
 	// reply
 	if !fail {
 		want := append([]byte{0, 0, 0, 0, 5}, []byte("REPLY")...)
